@@ -337,6 +337,21 @@ def stdout_cases(ctx):
             real_lines = data.split(b"\n")
             real_lines = [x + b"\n" for x in real_lines[:-1]] + ([real_lines[-1]] if real_lines[-1] else [])
             want = [list(x) for x in real_lines if not dots.fullmatch(x)]
+            # the model (Channel.keptLines / isDotsLine, theorem C06_dots_exact) and the real `_is_dots`
+            ans = ctx.driver.batch([{"op": "kept_lines", "stdout": list(data)}])[0]
+            if "error" in ans:
+                ctx.drift("channel.dots", "driver error %s" % ans["error"], rep)
+            else:
+                from zope.testrunner import runner as _runner
+                real_flags = [_runner._is_dots(x) is not None for x in real_lines]
+                if ans["dots"] != real_flags:
+                    k_ = next(i_ for i_, (a, b) in enumerate(zip(ans["dots"] + [None], real_flags + [None])) if a != b)
+                    ctx.drift("channel.dots", "line %r: _is_dots says %r, Channel.isDotsLine %r" % (
+                        bytes(real_lines[k_])[:60] if k_ < len(real_lines) else None,
+                        real_flags[k_] if k_ < len(real_flags) else None, ans["dots"][k_] if k_ < len(ans["dots"]) else None), rep)
+                elif ans["kept"] != res["kept"]:
+                    ctx.drift("channel.kept", "collector %s kept %d lines, Channel.keptLines %d" % (
+                        collector, len(res["kept"]), len(ans["kept"])), rep)
             if res["kept"] != want:
                 ctx.violation("collector %s kept %d lines of the child's output, %d are not keep-alive dots lines: "
                               "first difference %r" % (collector, len(res["kept"]), len(want),
